@@ -112,6 +112,9 @@ def build(ctx, case):
         edited = True
         feats.add("edit_history")
     gen_ir.uniquify_names(model)
+    if (model.ir_version or 0) >= 11 and not edited and rng.random() < 0.7:
+        if gen_ir.annotate_devices(model, rng):
+            feats.add("device_annotations")
     return model, feats, edited
 
 
@@ -170,7 +173,7 @@ def judge(ctx, model, feats, edited, case):
         ctx.count("feature:" + f)
     big = {"subgraph", "function", "sequence_type", "optional_type", "sparse_type", "metadata_props", "lazy_tensor",
            "proto_tensor", "string_tensor", "lowbit_tensor", "unsorted_nodes", "edit_history", "ref_attr",
-           "outer_value_as_subgraph_output", "empty_named_output", "dim_denotation", "type_proto_attr"}
+           "outer_value_as_subgraph_output", "empty_named_output", "dim_denotation", "type_proto_attr", "device_annotations"}
     ctx.evaluation(key=p1.SerializeToString(deterministic=True).hex()[:4000], nontrivial=(nnodes >= 4 and len(feats & big) >= 3))
     if case % 61 == 0:
         ctx.sample({"case": case, "nodes": nnodes, "features": sorted(feats), "edited": edited,
